@@ -69,6 +69,15 @@ func (c *Ctx) mergeFn() *ssa.Function {
 	if n != 1 {
 		return nil
 	}
+	// the stamping may sit in a private helper of the link function (a method of the stamp it is handed): the link
+	// function is the one that calls it
+	for d := 0; d < 3; d++ {
+		h := exactHelper(out)
+		if h == nil || len(h.sites) != 1 {
+			break
+		}
+		out = h.site.Parent()
+	}
 	return out
 }
 
@@ -961,11 +970,15 @@ func ruleNsStamp(c *Ctx) []Obligation {
 	obs = append(obs, ok(R, "one function stamps the namespace", c.Pos(merge.Pos()), c.FnName(merge)))
 	// the stored value is the namespace parameter, under namespace != nil
 	var nsParam *ssa.Parameter
-	for _, st := range storesToField(merge, fNS) {
+	var nsField *types.Var // the field of a structure parameter that carries the namespace, if that is how it comes
+	for _, st := range c.storesToFieldDeep(merge, fNS) {
 		con := "the stamped value is the caller's namespace argument"
-		if p, okp := st.Val.(*ssa.Parameter); okp {
+		if p, okp := resolveArg(st.Val).(*ssa.Parameter); okp && p.Parent() == merge {
 			nsParam = p
 			obs = append(obs, ok(R, con, c.InstrPos(st), "v.namespace = "+p.Name()))
+		} else if p, f := structParamField(st.Val); p != nil && p.Parent() == merge {
+			nsParam, nsField = p, f
+			obs = append(obs, ok(R, con, c.InstrPos(st), "v.namespace = "+p.Name()+"."+f.Name()))
 		} else {
 			obs = append(obs, bad(R, con, c.InstrPos(st), "the link function stores something other than its namespace parameter"))
 		}
@@ -987,6 +1000,15 @@ func ruleNsStamp(c *Ctx) []Obligation {
 			continue
 		}
 		a := args[idx]
+		if nsField != nil {
+			// the argument is a structure written on the spot: the value its namespace field is given (none: nil)
+			v, known := literalField(a, nsField)
+			if !known {
+				obs = append(obs, undecided(R, fmt.Sprintf("%s → %s: namespace argument", c.FnName(c.inlineRoot(e.Caller.Func)), c.FnName(merge)), c.InstrPos(e.Site), "the structure that carries the namespace is not written at the call: what its field holds is not followed"))
+				continue
+			}
+			a = v
+		}
 		caller := c.inlineRoot(e.Caller.Func) // a private helper of the applier counts as the applier
 		con := fmt.Sprintf("%s → %s: namespace argument", c.FnName(caller), c.FnName(merge))
 		pos := c.InstrPos(e.Site)
@@ -1004,7 +1026,7 @@ func ruleNsStamp(c *Ctx) []Obligation {
 			// Namespace() of the augment entry being merged (the oe argument)
 			oe := args[len(args)-1]
 			if call.Call.Args[0] == oe {
-				obs = append(obs, ok(R, con+" is the augmenting entry's", pos, "target.merge(nil, a.Namespace(), a)"))
+				obs = append(obs, ok(R, con+" is the augmenting entry's", pos, "the namespace handed to the link function is Namespace() of the entry it is handed"))
 				continue
 			}
 		}
@@ -1066,4 +1088,114 @@ func isSetInsert(mu *ssa.MapUpdate) bool {
 		return true
 	}
 	return false
+}
+
+// structParamField: v reads field f of a structure that is a parameter of the function (or, inside a private helper,
+// of the function the helper is part of): `p.f` for a value parameter p, spilled or not.
+func structParamField(v ssa.Value) (*ssa.Parameter, *types.Var) {
+	var base ssa.Value
+	var f *types.Var
+	switch x := v.(type) {
+	case *ssa.Field:
+		st, isS := x.X.Type().Underlying().(*types.Struct)
+		if !isS {
+			return nil, nil
+		}
+		base, f = x.X, st.Field(x.Field)
+	case *ssa.UnOp:
+		fa, isFA := x.X.(*ssa.FieldAddr)
+		if !isFA || x.Op != token.MUL {
+			return nil, nil
+		}
+		pt, isP := fa.X.Type().Underlying().(*types.Pointer)
+		if !isP {
+			return nil, nil
+		}
+		st, isS := pt.Elem().Underlying().(*types.Struct)
+		if !isS {
+			return nil, nil
+		}
+		a, isA := fa.X.(*ssa.Alloc)
+		if !isA {
+			return nil, nil
+		}
+		sp := spilledParam(a)
+		if sp == nil {
+			return nil, nil
+		}
+		base, f = sp, st.Field(fa.Field)
+	default:
+		return nil, nil
+	}
+	for d := 0; d < 4; d++ {
+		if ld, isL := base.(*ssa.UnOp); isL && ld.Op == token.MUL {
+			if a, isA := ld.X.(*ssa.Alloc); isA {
+				if sp := spilledParam(a); sp != nil {
+					base = sp
+					continue
+				}
+			}
+		}
+		p, isP := base.(*ssa.Parameter)
+		if !isP {
+			return nil, nil
+		}
+		r := resolveArg(p)
+		if r == ssa.Value(p) {
+			return p, f
+		}
+		base = r
+	}
+	return nil, nil
+}
+
+// literalField: a is a structure value written on the spot (T{...}, lifted or in a cell of its own): the value its
+// field f is given; the nil/zero constant if the literal leaves it out. known is false for any other shape.
+func literalField(a ssa.Value, f *types.Var) (ssa.Value, bool) {
+	ld, isL := a.(*ssa.UnOp)
+	if !isL || ld.Op != token.MUL {
+		if k, isK := a.(*ssa.Const); isK && k.Value == nil {
+			return ssa.NewConst(nil, f.Type()), true // the zero structure
+		}
+		return nil, false
+	}
+	cell, isA := ld.X.(*ssa.Alloc)
+	if !isA || spilledParam(cell) != nil {
+		return nil, false
+	}
+	var val ssa.Value
+	n := 0
+	for _, r := range *cell.Referrers() {
+		switch x := r.(type) {
+		case *ssa.FieldAddr:
+			st := cell.Type().Underlying().(*types.Pointer).Elem().Underlying().(*types.Struct)
+			for _, rr := range *x.Referrers() {
+				s, isS := rr.(*ssa.Store)
+				if !isS || s.Addr != ssa.Value(x) {
+					if _, isDbg := rr.(*ssa.DebugRef); !isDbg {
+						return nil, false // the field's address goes elsewhere
+					}
+					continue
+				}
+				if st.Field(x.Field) == f {
+					val = s.Val
+					n++
+				}
+			}
+		case *ssa.UnOp, *ssa.DebugRef:
+		case *ssa.Store:
+			if x.Addr == ssa.Value(cell) {
+				return nil, false // the whole structure is copied in from elsewhere
+			}
+		default:
+			return nil, false
+		}
+	}
+	switch n {
+	case 0:
+		return ssa.NewConst(nil, f.Type()), true
+	case 1:
+		return val, true
+	}
+	return nil, false
 }
